@@ -82,6 +82,22 @@ def run(tier):
             if f["c"].startswith("C12."):
                 check.violation({"class": f["c"], "kind": f.get("kind") or f.get("want"), "parent": f.get("parent"), "role": f.get("role")},
                                 {"src": p["src"], "ver": p["ver"], "fail": f})
+    # trees as the formatter leaves them (it inserts and rewrites nodes): the traverser still presents every node once, in order, and no
+    # node object stands in two slots
+    fsrc = [p for p in progs if "used" in p or len(p["src"]) < 3000][:: (2 if tier == "quick" else 1)]
+    fsrc += [{"src": s_, "ver": "7.4"} for s_ in ["<?php echo $a ?><b>x</b>", "<?php $a; $b; ?>\n<p>t</p>\n<?php $c;", "<?php f(); g(); h(); ?>html<?php i(); j(); k(); l();",
+                                                   "<html><?php foreach ($a as $b): ?><li><?= $b ?></li><?php endforeach; ?></html>", "<?php if ($a) { ?>x<?php } else { ?>y<?php } ?>z"]]
+    nfmt = 0
+    for p, r in zip(fsrc, wp.run([{"op": "analyze", "src": p["src"], "ver": p["ver"], "format": True, "limit_ms": 4000 + len(p["src"]) // 10} for p in fsrc])):
+        check.count()
+        if r.get("skip") or r.get("panic") or r.get("hang") or r.get("crash"):
+            continue            # formatter crashes are C17's business
+        nfmt += 1
+        for f in r.get("fails") or []:
+            if f["c"].startswith("C12."):
+                check.violation({"class": f["c"] + "-after-format", "kind": f.get("kind") or f.get("want"), "parent": f.get("parent"), "role": f.get("role")},
+                                {"src": p["src"], "ver": p["ver"], "fail": f})
+    check.cov["formatted_trees_traversed"] = nfmt
     # every operator nested in itself in every operand position (SyntaxGen self-nesting mode, exhaustive): a traverser method that
     # keeps state across its own recursion shows here
     for family in ("7", "5"):
